@@ -1103,6 +1103,14 @@ func (em *emitter) emitForRange(node *ast.ForRange) {
 		kExpr = false
 		exprReg = em.emitExpr(expr, exprType)
 	}
+	if exprType.Kind() == reflect.Array && len(vars) == 2 && !isBlankIdentifier(vars[1]) {
+		// The range expression is evaluated once before the loop: the
+		// elements are those of a copy of the array, also if the array is
+		// changed in the body of the loop.
+		tmp := em.fb.newRegister(reflect.Array)
+		em.changeRegister(false, exprReg, tmp, exprType, exprType)
+		exprReg = tmp
+	}
 
 	// The instruction OpRange knows nothing about indirect registers. So, if
 	// indirect registers are involved, declare them both as  direct and
